@@ -328,6 +328,12 @@ func (cm *CMap) parseBfRangeSection(section string) error {
 		endCode, err2 := parseHexToUint32(endHex)
 		dstUnicode, err3 := parseHexToUint32(dstHex)
 
+		if len(dstHex) > 4 {
+			// Destination longer than one UTF-16 code unit (ligature, surrogate pair)
+			cm.addBfRangeStrings(startHex, endHex, dstHex)
+			continue
+		}
+
 		if err1 != nil || err2 != nil || err3 != nil {
 			continue
 		}
@@ -413,6 +419,11 @@ func (cm *CMap) parseBfRangeSectionWithArrays(section string) error {
 			endCode, err2 := parseHexToUint32(endHex)
 			dstUnicode, err3 := parseHexToUint32(dstHex)
 
+			if len(dstHex) > 4 {
+				cm.addBfRangeStrings(startHex, endHex, dstHex)
+				continue
+			}
+
 			if err1 != nil || err2 != nil || err3 != nil {
 				continue
 			}
@@ -428,6 +439,29 @@ func (cm *CMap) parseBfRangeSectionWithArrays(section string) error {
 	}
 
 	return nil
+}
+
+// addBfRangeStrings expands a bfrange whose destination is a string of several UTF-16
+// code units (e.g. <0041> <0043> <00660069> or a surrogate pair): each successive source
+// code maps to the destination with its last code unit incremented by one.
+func (cm *CMap) addBfRangeStrings(startHex, endHex, dstHex string) {
+	startCode, err1 := parseHexToUint32(startHex)
+	endCode, err2 := parseHexToUint32(endHex)
+	if len(dstHex)%2 != 0 {
+		dstHex = "0" + dstHex
+	}
+	dst, err3 := hex.DecodeString(dstHex)
+	if err1 != nil || err2 != nil || err3 != nil || len(dst)%2 != 0 || endCode < startCode || endCode-startCode > 0xFFFF {
+		return
+	}
+	last := uint16(dst[len(dst)-2])<<8 | uint16(dst[len(dst)-1])
+	for i := uint32(0); i <= endCode-startCode; i++ {
+		unit := last + uint16(i)
+		dst[len(dst)-2], dst[len(dst)-1] = byte(unit>>8), byte(unit)
+		if unicode, err := decodeUTF16BE(dst); err == nil {
+			cm.charMappings[startCode+i] = unicode
+		}
+	}
 }
 
 // parseBfRangeArray parses array format: <start> <end> [<u1> <u2> ...]
